@@ -3,7 +3,7 @@
     a scanned site ([all_sites_accounted], [no_stale_entries] in Proofs.v, by vm_compute).  An entry that claims a
     theorem carries the theorem itself (statement + proof term), so a claim cannot outlive its proof. *)
 From V Require Import Base.Util Gql.Ast Peg.Peg Gen.C07_grammar_gen C07.Builder C07.Model.
-From V Require Import C08.Model C08.Spec C08.SiteType C08.ProofsRender C08.ProofsEscape.
+From V Require Import C08.Model C08.Spec C08.SiteType C08.ProofsRender C08.ProofsEscape C08.ProofsShape C08.ProofsMerge.
 From V Require C03.Properties C12.Properties C13.Properties.
 
 Inductive status :=
@@ -38,8 +38,8 @@ Local Notation F_ch := (s "crates/utils/src/chars.rs").
 
 (** shape sites of the builder: C08_builder_shapes_ok (ProofsShape.v) covers the executable-document half;
     the remaining ones are exercised by the malformed streams of C07 and C08 on every run *)
-Local Notation shape_op := (Tested (s "builder shape site: every parsed input of the four streams (and of C07 streams) reaches no shape panic")).
-Local Notation shape_ts := (Tested (s "type-system half of the builder: every parsed input of the four streams (and of C07's) reaches no shape panic; the theorem builder_shapes_ok covers executable documents")).
+Local Notation shape_op := (Proved (s "C08_builder_shapes_ok (executable documents) / C08_builder_shapes_ok_ts (the shared utilities on type-system documents)") _ (conj builder_shapes_ok builder_shapes_ok_ts)).
+Local Notation shape_ts := (Proved (s "C08_builder_shapes_ok_ts") _ builder_shapes_ok_ts).
 Local Notation unspread := (Known (s "unspread-fragment") _ C03.Properties.C03_unspread_fragment_refuted).
 Local Notation checked := (Tested (s "reachable only through a definition check_operation_document never validated (see the Known entries: unspread fragments); on documents whose fragments are all spread, 0 hits over every accepted document of the streams")).
 
@@ -91,8 +91,8 @@ Definition table : list (site * status) := [
   (mk_site F_js (s "print_operation_runtime") (s "index") (s "this_document") 1, NoPanic (s "full-range slice &v[..]"));
   (mk_site F_dm (s "deep_merge_selection_tree") (s "expect") (s "field was just inserted") 1, checked);
   (mk_site F_dm (s "merge_fields") (s "assert") (s "Cannot merge fields of different names") 1, checked);
-  (mk_site F_dm (s "merge_fields") (s "panic") (s "Cannot merge fields of different types\nleft: {:?}\nright: {") 1, checked);
-  (mk_site F_dm (s "merge_selection_trees") (s "panic") (s "Cannot merge selection trees of different types") 1, checked);
+  (mk_site F_dm (s "merge_fields") (s "panic") (s "Cannot merge fields of different types\nleft: {:?}\nright: {") 1, Known (s "conflicting-response-key") _ merge_unchecked_refuted);
+  (mk_site F_dm (s "merge_selection_trees") (s "panic") (s "Cannot merge selection trees of different types") 1, Known (s "conflicting-response-key") _ merge_unchecked_refuted);
   (mk_site F_ssv (s "visit_fields_in_selection_set_impl") (s "expect") (s "Type system error") 1, unspread);
   (mk_site F_tp (s "check_fragment_condition") (s "expect") (s "Type system error") 1, unspread);
   (mk_site F_tp (s "check_skip_directive") (s "expect") (s "Type system error") 4, unspread);
